@@ -1,30 +1,31 @@
 import UrcuVerif.Fork.Pcs
 /-!
 # C16 — inductive invariants of the fork model (definitions, initial state, proof macros; the
-per-label lemmas are in `InvP*.lean`, `InvL*.lean`, `InvC*.lean`, assembled in `InvAll.lean`;
-statements in `Props/C16.lean`)
+per-label lemmas are in `InvP.lean`, `InvL.lean`, `InvC.lean`, assembled in `InvAll.lean`; statements
+in `Props/C16.lean`)
 
 ONE invariant for every process of the process tree (`Reach` is closed under `forkParent` and
 `forkChild`), in three groups:
 
 * `InvP` – pause protocol and structure.  `call_rcu_data_list` is duplicate free; a helper thread
   that exists in this process has its `call_rcu_data` in the list and, outside the child's
-  `after_fork_child` window, every `call_rcu_data` of the list has a thread (`list_alive`); whoever is
-  at a mutex-holding program counter owns `call_rcu_mutex`; per program counter of the thread inside
-  the fork window (`bfPause/bfWk/bfWait/atFork/afpClr/afpWait`) which helpers have `PAUSE` and which are
-  known to spin; `PAUSED` ⇔ helper at `spin/clrPaused`; a helper that saw `PAUSE` keeps seeing it until
-  it spins; child window: the forking thread is the only application thread, every inherited
-  `call_rcu_data` is thread-less and either still to be disposed of or already unlinked, the new
-  default helper is the only helper with a thread, per-CPU array and per-thread pointer reset.
-* `InvL` – locks and registry.  Each of `call_rcu_mutex`, `rcu_gp_lock`, `rcu_registry_lock` is held
-  exactly by the thread whose program counter says so – never by an erased thread; the registry
-  holds exactly the helpers whose program counter is in the registered part of `call_rcu_thread` and
-  only application threads that exist; `waitL` ⊆ registered threads inside a read-side section.
-* `InvC` – callbacks and pointers.  The ghost location agrees with queues / batches / running slots
-  in both directions, no duplicates, a queue that holds callbacks belongs to `call_rcu_data_list`;
-  `batch`/`cur` are empty outside the grace-period / invocation part of the helper loop; `invN` = 1 iff
-  run; `atFork`/`invSince` bookkeeping; pending barrier markers are queued; `dflt`, per-CPU and
-  per-thread pointers and enqueue targets point into the list.
+  `after_fork_child` window, every `call_rcu_data` of the list has a thread (`list_alive`);
+  `call_rcu_mutex` is held exactly by the thread whose program counter says so; per program counter
+  of the thread inside the fork window (`bfPause/bfWait/atFork/afpClr/afpWait`) which helpers have
+  `PAUSE` and which are known to spin; `PAUSED` ⇔ helper at `spin/clrPaused`; a helper that saw `PAUSE`
+  keeps seeing it until it spins; child window: the forking thread is the only application thread,
+  every inherited `call_rcu_data` is thread-less and either still to be disposed of or already
+  unlinked, the new default helper is the only helper with a thread, per-CPU array and per-thread
+  pointer reset.
+* `InvL` – `rcu_gp_lock` and registry.  The lock is held exactly by the thread whose program counter
+  says so – never by an erased thread; the registry holds exactly the helpers whose program counter
+  is in the registered part of `call_rcu_thread` and only application threads that exist; `waitL` ⊆
+  registered threads inside a read-side section.
+* `InvC` – callbacks and pointers.  The ghost location agrees with queues / batches in both
+  directions, no duplicates, a queue that holds callbacks belongs to `call_rcu_data_list`; `batch` is
+  empty outside the grace-period / invocation part of the helper loop; `invN` = 1 iff run;
+  `atFork`/`invSince` bookkeeping; pending barrier markers are queued; `dflt`, per-CPU and per-thread
+  pointers point into the list.
 -/
 set_option linter.unusedVariables false
 set_option linter.unusedSimpArgs false
@@ -35,7 +36,7 @@ def BfA (s : State) (rem : List Nat) : Prop :=
   rem.Nodup ∧ (∀ h, h ∈ rem → h ∈ s.list ∧ s.pause h = false ∧ s.paused h = false) ∧
   (∀ h, h ∈ s.list → h ∉ rem → s.pause h = true)
 
-/-- child loop: `rem` = inherited `call_rcu_data` still to be disposed of -/
+/-- child loop: `rem` = inherited `call_rcu_data` still to be disposed of (or the new default) -/
 def ChA (s : State) (rem : List Nat) : Prop :=
   rem.Nodup ∧ (∀ h, h ∈ rem → h ∈ s.list) ∧ (∀ h, h ∈ s.list → s.hpc h = .gone → h ∈ rem)
 
@@ -52,6 +53,7 @@ structure InvP (c : Cfg) (s : State) : Prop where
   live_in_list : ∀ h, s.hpc h ≠ .none → s.hpc h ≠ .gone → h ∈ s.list
   list_alive : s.child = false → ∀ h, h ∈ s.list → s.hpc h ≠ .gone
   m_pc : ∀ t, (s.upc t).holdsM = true → s.mutex = some t
+  m_own : ∀ t, s.mutex = some t → (s.upc t).holdsM = true
   pc_win : ∀ t, (s.upc t).inBf = true ∨ (s.upc t).inAfc = true → s.win = some t
   win_pc : ∀ t, s.win = some t → (s.upc t).inBf = true ∨ (s.upc t).inAfc = true
   child_pc : ∀ t, (s.upc t).inAfc = true → s.child = true
@@ -61,78 +63,63 @@ structure InvP (c : Cfg) (s : State) : Prop where
   paused_pc : ∀ h, s.hpc h ≠ .gone → (s.paused h = true ↔ (s.hpc h = .spin ∨ s.hpc h = .clrPaused))
   pausing_pc : ∀ h, (s.hpc h).pausing = true → s.pause h = true
   clr_pc : ∀ h, s.hpc h = .clrPaused → s.pause h = false
-  bf1 : ∀ t rem, s.upc t = .bfPause rem → BfA s rem
-  bf1w : ∀ t h rem, s.upc t = .bfWk h rem → BfA s rem ∧ h ∈ s.list ∧ h ∉ rem ∧ s.pause h = true
+  bf1 : ∀ t rem, s.upc t = .bfPause rem → BfA s rem ∧ s.win = some t ∧ s.child = false ∧ s.mutex = some t
   bf2 : ∀ t rem, s.upc t = .bfWait rem → (∀ h, h ∈ rem → h ∈ s.list) ∧ (∀ h, h ∈ s.list → s.pause h = true) ∧
-          (∀ h, h ∈ s.list → h ∉ rem → s.hpc h = .spin)
-  bf3 : ∀ t, s.upc t = .atFork → ∀ h, h ∈ s.list → s.pause h = true ∧ s.hpc h = .spin
+          (∀ h, h ∈ s.list → h ∉ rem → s.hpc h = .spin) ∧ s.win = some t ∧ s.child = false ∧ s.mutex = some t
+  bf3 : ∀ t, s.upc t = .atFork → (∀ h, h ∈ s.list → s.pause h = true ∧ s.hpc h = .spin) ∧
+          s.win = some t ∧ s.child = false ∧ s.mutex = some t
   bf4 : ∀ t rem, s.upc t = .afpClr rem → rem.Nodup ∧ (∀ h, h ∈ rem → h ∈ s.list ∧ s.pause h = true ∧ s.hpc h = .spin) ∧
-          (∀ h, h ∈ s.list → h ∉ rem → s.pause h = false)
+          (∀ h, h ∈ s.list → h ∉ rem → s.pause h = false) ∧ s.win = some t ∧ s.child = false ∧ s.mutex = some t
   bf5 : ∀ t rem, s.upc t = .afpWait rem → (∀ h, h ∈ rem → h ∈ s.list) ∧ (∀ h, h ∈ s.list → s.pause h = false) ∧
-          (∀ h, h ∈ s.list → h ∉ rem → s.paused h = false)
-  ch_early : ∀ t, (s.upc t).afcEarly = true → ∀ h, s.hpc h = .none ∨ s.hpc h = .gone
+          (∀ h, h ∈ s.list → h ∉ rem → s.paused h = false) ∧ s.win = some t ∧ s.child = false ∧ s.mutex = some t
+  bar_m : ∀ t b rem, s.upc t = .barLoop b rem → s.mutex = some t ∧ s.child = false ∧ ∀ h, h ∈ rem → h ∈ s.list
+  ch_e1 : ∀ t, s.upc t = .afcUnlock → s.win = some t ∧ s.child = true ∧ s.mutex = some t ∧ ∀ h, s.hpc h = .none ∨ s.hpc h = .gone
+  ch_e2 : ∀ t, s.upc t = .afcCreate → s.win = some t ∧ s.child = true ∧ ∀ h, s.hpc h = .none ∨ s.hpc h = .gone
   ch_dflt : s.child = true → ∀ h, s.hpc h ≠ .none → s.hpc h ≠ .gone → s.dflt = some h
-  ch_reset : ∀ t, s.upc t = .afcGdUnlock ∨ s.upc t = .afcReset →
-               s.dflt ≠ none ∧ ∀ d, s.dflt = some d → s.hpc d ≠ .gone ∧ s.hpc d ≠ .none
-  ch_late : ∀ t, (s.upc t).afcLate = true → Late s t
-  ch_loop : ∀ t rem, s.upc t = .afcLoop rem → ChA s rem
-  ch_cur : ∀ t h rem, (s.upc t).afcH = some (h, rem) → ChA s (h :: rem) ∧ s.hpc h = .gone
-  ch_wk : ∀ t d h rem, s.upc t = .afcWk d h rem → s.dflt = some d
-  ch_stopped : ∀ t h rem, s.upc t = .afcFLock h rem → s.stopped h = true
+  ch_loop : ∀ t rem, s.upc t = .afcLoop rem → ChA s rem ∧ Late s t ∧ s.win = some t ∧ s.child = true
+  idle_nochild : ∀ t, s.upc t = .idle ∨ s.upc t = .gp → s.child = false ∧ s.win ≠ some t
+  win_mutex : ∀ t, s.win = some t → s.child = false → s.mutex = some t
   big_idle : ∀ t, c.n ≤ t → s.upc t = .idle ∨ s.upc t = .gone
 
 structure InvL (c : Cfg) (s : State) : Prop where
-  m_own : ∀ t, s.mutex = some t → (s.upc t).holdsM = true
   g_ownu : ∀ t, s.gpl = some (.u t) → (s.upc t).holdsG = true
   g_ownh : ∀ h, s.gpl = some (.h h) → (s.hpc h).holdsG = true
   g_pcu : ∀ t, (s.upc t).holdsG = true → s.gpl = some (.u t)
   g_pch : ∀ h, (s.hpc h).holdsG = true → s.gpl = some (.h h)
-  r_ownu : ∀ t, s.rgl = some (.u t) → (s.upc t).holdsR = true
-  r_ownh : ∀ h, s.rgl = some (.h h) → (s.hpc h).holdsR = true
-  r_pcu : ∀ t, (s.upc t).holdsR = true → s.rgl = some (.u t)
-  r_pch : ∀ h, (s.hpc h).holdsR = true → s.rgl = some (.h h)
   wait_gp : s.gpl = none → s.waitL = []
   reg_h : ∀ h, Th.h h ∈ s.registry → (s.hpc h).isReg = true
   reg_h' : ∀ h, (s.hpc h).isReg = true → Th.h h ∈ s.registry
   reg_u : ∀ t, Th.u t ∈ s.registry → s.upc t ≠ .gone
-  unreg_pc : ∀ t, s.upc t = .unregLock ∨ s.upc t = .unregDo → s.nest t = 0
   wait_in : ∀ u, u ∈ s.waitL → Th.u u ∈ s.registry ∧ 0 < s.nest u
 
 structure InvC (c : Cfg) (s : State) : Prop where
   dflt_in : ∀ d, s.dflt = some d → d ∈ s.list
   cpu_in : ∀ cpu h, s.percpu cpu = some h → h ∈ s.list
   thr_in : ∀ t h, s.thr t = some h → s.upc t ≠ .gone → h ∈ s.list
-  enq_in : ∀ t id h, s.upc t = .enq id h → h ∈ s.list
   q_loc : ∀ h id, id ∈ s.queue h → s.loc id = .queue h
   loc_q : ∀ h id, s.loc id = .queue h → id ∈ s.queue h ∧ h ∈ s.list
   q_nodup : ∀ h, (s.queue h).Nodup
   b_loc : ∀ h id, id ∈ s.batch h → s.loc id = .batch h
   loc_b : ∀ h id, s.loc id = .batch h → id ∈ s.batch h
   b_nodup : ∀ h, (s.batch h).Nodup
-  c_loc : ∀ h id, s.cur h = some id → s.loc id = .run h
-  loc_c : ∀ h id, s.loc id = .run h → s.cur h = some id
   batch_pc : ∀ h, s.batch h ≠ [] → (s.hpc h).mayBatch = true
-  cur_pc : ∀ h, (s.cur h).isSome = true ↔ (s.hpc h).running = true
-  pend_loc : ∀ t id, (s.upc t).pendId = some id → s.loc id = .pend ∧ s.holder id = t
-  loc_pend : ∀ id, s.loc id = .pend → (s.upc (s.holder id)).pendId = some id
-  reg_loc : ∀ id, s.reg id = false ↔ s.loc id = .none
+  reg_loc : ∀ id, s.reg id = false → s.loc id = .none
+  loc_reg : ∀ id, s.loc id = .none → s.reg id = false
   inv_cnt : ∀ id, s.invN id = if (s.loc id).invoked then 1 else 0
   af_loc : ∀ id, s.atFork id = true → (s.loc id).isQ = true ∨ (s.loc id).invoked = true
   af_cnt : ∀ id, s.atFork id = true → s.invSince id = if (s.loc id).invoked then 1 else 0
   since_le : ∀ id, s.invSince id ≤ s.invN id
-  bp_loc : ∀ b id, id ∈ s.bpend b → s.bar id = some b ∧ ((s.loc id).isQ = true ∨ ∃ h, s.loc id = .run h)
-  bp_nodup : ∀ b, (s.bpend b).Nodup
-  ch_empty : ∀ t h, (∃ rem, s.upc t = .afcDel h rem) ∨ (∃ d rem, s.upc t = .afcWk d h rem) → s.queue h = []
-  fresh_q : ∀ h, s.nextH ≤ h → s.queue h = [] ∧ s.batch h = [] ∧ s.cur h = none
+  bp_loc : ∀ b id, id ∈ s.bpend b → s.bar id = some b ∧ (s.loc id).isQ = true
+  fresh_q : ∀ h, s.nextH ≤ h → s.queue h = [] ∧ s.batch h = []
 
 theorem invP_init (c) : InvP c init := by
-  constructor <;> simp [init, UPc.holdsM, UPc.inAfc, UPc.inBf, UPc.afcEarly, UPc.afcLate, UPc.afcH, HPc.pausing]
+  constructor <;> simp [init, UPc.holdsM, UPc.inAfc, UPc.inBf, UPc.afcEarly, HPc.pausing]
 
 theorem invL_init (c) : InvL c init := by
-  constructor <;> simp [init, UPc.holdsM, UPc.holdsG, UPc.holdsR, HPc.holdsG, HPc.holdsR, HPc.isReg]
+  constructor <;> simp [init, UPc.holdsG, HPc.holdsG, HPc.isReg]
 
 theorem invC_init (c) : InvC c init := by
-  constructor <;> simp [init, UPc.pendId, HPc.mayBatch, HPc.running, Loc.isQ, Loc.invoked]
+  constructor <;> simp [init, HPc.mayBatch, Loc.isQ, Loc.invoked]
 
 theorem mem_of_head? {l : List Nat} {a : Nat} (h : l.head? = some a) : a ∈ l := by
   cases l <;> simp_all
@@ -149,6 +136,8 @@ theorem mem_erase_nodup {l : List Nat} (hn : l.Nodup) (a x : Nat) : x ∈ l.eras
   rw [hn.mem_erase_iff]; constructor <;> (intro h; exact ⟨h.2, h.1⟩)
 theorem nodup_erase' {l : List Nat} (hn : l.Nodup) (a : Nat) : (l.erase a).Nodup := hn.erase a
 theorem mem_filter_ne (l : List Th) (a x : Th) : x ∈ l.filter (· ≠ a) ↔ x ∈ l ∧ x ≠ a := by
+  simp [List.mem_filter]
+theorem mem_filter_neN (l : List Nat) (a x : Nat) : x ∈ l.filter (· ≠ a) ↔ x ∈ l ∧ x ≠ a := by
   simp [List.mem_filter]
 theorem nodup_cons' {a : Nat} {l : List Nat} : (a :: l).Nodup ↔ a ∉ l ∧ l.Nodup := List.nodup_cons
 theorem nodup_append' {l₁ l₂ : List Nat} : (l₁ ++ l₂).Nodup ↔ l₁.Nodup ∧ l₂.Nodup ∧ ∀ a, a ∈ l₁ → a ∉ l₂ := by
@@ -188,6 +177,28 @@ theorem forkPreB_iff (c : Cfg) (s : State) (t : Nat) : forkPreB c s t = true ↔
     · cases r with
       | u v => simpa using h3 v hr
       | h v => rfl
+
+theorem afcEarly_inAfc {p : UPc} (h : p.afcEarly = true) : p.inAfc = true := by cases p <;> simp_all [UPc.afcEarly, UPc.inAfc]
+theorem inBf_holdsM {p : UPc} (h : p.inBf = true) : p.holdsM = true := by cases p <;> simp_all [UPc.inBf, UPc.holdsM]
+theorem inBf_not_inAfc {p : UPc} (h : p.inBf = true) : p.inAfc = false := by cases p <;> simp_all [UPc.inBf, UPc.inAfc]
+
+theorem hHoldsG_g1 {p : HPc} (h : p.holdsG = true) : p = .g1 := by cases p <;> simp_all [HPc.holdsG]
+theorem hIsReg_ne {p : HPc} (h : p.isReg = true) : p ≠ .none ∧ p ≠ .gone ∧ p ≠ .spin := by cases p <;> simp_all [HPc.isReg]
+theorem hMayBatch_ne {p : HPc} (h : p.mayBatch = true) : p ≠ .none ∧ p ≠ .gone ∧ p ≠ .spin := by cases p <;> simp_all [HPc.mayBatch]
+theorem uHoldsG_gp {p : UPc} (h : p.holdsG = true) : p = .gp := by cases p <;> simp_all [UPc.holdsG]
+
+theorem isQueue_isQ {l : Loc} (h : isQueue l = true) : l.isQ = true ∧ l.invoked = false ∧ ∃ x, l = .queue x := by
+  cases l <;> simp_all [isQueue, Loc.isQ, Loc.invoked]
+theorem sel_in (c : Cfg) {s : State} (h : InvC c s) {t : Nat} {v : Via} {x : Nat} (hs : sel s t v = some x)
+    (ht : s.upc t ≠ .gone) : x ∈ s.list := by
+  cases v <;> simp only [sel] at hs
+  · exact h.thr_in t x hs ht
+  · split at hs
+    · exact h.cpu_in _ x hs
+    · cases hs
+  · split at hs
+    · exact h.dflt_in x hs
+    · cases hs
 
 /-- unfold the step, split its guards, substitute the post state -/
 syntax "unfold_step" : tactic
